@@ -42,7 +42,8 @@ Inductive kind := KOther | KReg | KPin | KCdc | KMemPort | KSig2Clk | KSig2Rst.
 
 Record clock := mkClock {
   cparent : option clockid;   (* m_parentClock *)
-  cself   : bool;             (* isSelfDriven(true,true) && isSelfDriven(false,true) *)
+  cselfsim : bool;            (* isSelfDriven(true,  true): no logic drives the clock net in the simulation view *)
+  cselfexp : bool;            (* isSelfDriven(false, true): ... in the export view (Node_ExportOverride picks the view) *)
   cname   : N;                (* getName(), interned *)
   cfnum   : N;                (* absoluteFrequency(), normalised numerator / denominator *)
   cfden   : N;
@@ -80,7 +81,7 @@ Definition inherits (cs : list clock) (ck : clock) : bool :=
     match nth_error cs p with
     | None => false
     | Some pk =>
-      if negb (cself ck) then false                       (* !isSelfDriven(..) *)
+      if negb (cselfsim ck) || negb (cselfexp ck) then false   (* !isSelfDriven(true,true) || !isSelfDriven(false,true) *)
       else if negb (N.eqb (cname pk) (cname ck))
               || negb (N.eqb (cfnum pk) (cfnum ck) && N.eqb (cfden pk) (cfden ck))
               || negb (cphase ck) then false
@@ -102,6 +103,11 @@ Fixpoint pin_source_f (fuel : nat) (cs : list clock) (c : clockid) : clockid :=
   end.
 
 Definition pin_source (n : netlist) (c : clockid) : clockid := pin_source_f (length (clks n)) (clks n) c.
+
+(* Circuit::getClocks() is in creation order: a parent is created before the clocks derived from it *)
+Definition clocks_ok (cs : list clock) : bool :=
+  forallb (fun ic => match cparent (snd ic) with None => true | Some p => p <? fst ic end)
+          (combine (seq 0 (length cs)) cs).
 
 (* ------------------------------------------------------------------ *)
 (* getOutputClockRelation                                               *)
